@@ -8,5 +8,6 @@ CONSTANTS
   MaxAccepts = 2
   Items = {"get", "enable", "eof", "err", "boom", "junk", "partial", "new"}
   Stalled = {}
+VIEW MCView
 INVARIANT WholeInOrder
 INVARIANT PrefixWhenNoFailure
